@@ -218,7 +218,7 @@ func runHarness(ld *loaded, prop string, h HarnessSpec, tier int, known map[stri
 		Prog: ld.prog, Target: ld.target, Sizes: types.SizesFor("gc", "amd64"),
 		Z3: envOr("VX_Z3", "/usr/bin/z3"), QueryMS: opts.QueryMS, Workers: workers(),
 		MaxSteps: opts.MaxSteps, MaxPaths: opts.MaxPaths, Preempt: opts.Preempt, PermuteMaps: opts.PermuteMaps, SelectFork: opts.SelectFork,
-		Known: known, Tier: tier, StopAtFirstViolation: true,
+		Known: known, Tier: tier, StopAtFirstViolation: true, SymbolicChoices: os.Getenv("VX_CONCRETE_CHOICES") == "",
 	}
 	if opts.TimeoutS > 0 {
 		cfg.Deadline = time.Now().Add(time.Duration(opts.TimeoutS) * time.Second)
@@ -673,7 +673,7 @@ func cmdRun(args []string) {
 		}
 	}
 	cfg := &interp.Config{Prog: ld.prog, Target: ld.target, Sizes: types.SizesFor("gc", "amd64"), Z3: envOr("VX_Z3", "/usr/bin/z3"),
-		Workers: *w, MaxPaths: *maxPaths, Preempt: *preempt, PermuteMaps: *permute, SelectFork: *selFork, Known: known, Tier: *tier, StopAtFirstViolation: true}
+		Workers: *w, MaxPaths: *maxPaths, Preempt: *preempt, PermuteMaps: *permute, SelectFork: *selFork, Known: known, Tier: *tier, StopAtFirstViolation: true, SymbolicChoices: os.Getenv("VX_CONCRETE_CHOICES") == ""}
 	cfg.Prepare()
 	entry, err := interp.Entry(cfg, fn)
 	if err != nil {
